@@ -3,13 +3,13 @@
 p=$1; n=${2:-3}
 git -C /repo worktree add -q --detach /tmp/wt_$p HEAD || exit 1
 /venv/bin/python - "$p" "$n" <<'PY'
-import json, sys
+import json, os, sys
 pid, n = sys.argv[1], sys.argv[2]
 for l in open('/verif/properties.jsonl'):
     p = json.loads(l)
     if p['id'] == pid:
         prop = f"{p['id']}: {p['title']}\n\n{p['statement']}\n\nQuantified over: {p['quantifier']['text']}\n"
-t = open('/verif/seeded/PROMPT_TEMPLATE.txt').read()
+t = open(os.environ.get("MUT_TEMPLATE", "/verif/seeded/PROMPT_TEMPLATE.txt")).read()
 t = t.replace('__WT__', f'/tmp/wt_{pid}').replace('__PROP__', prop).replace('__PID__', pid).replace('__N__', n)
 open(f'/tmp/mut_prompt_{pid}.txt', 'w').write(t)
 print(f'/tmp/mut_prompt_{pid}.txt')
